@@ -158,3 +158,61 @@ pub fn anim_decode(file: &[u8]) -> Option<Vec<(i32, Vec<u8>)>> {
         Some(out)
     }
 }
+
+/// What libwebp's demuxer reports for a file.
+#[derive(Debug, Clone, Default)]
+pub struct DemuxInfo {
+    pub flags: u32,
+    pub canvas_w: u32,
+    pub canvas_h: u32,
+    pub loop_count: u32,
+    pub frame_count: u32,
+    pub icc: Option<Vec<u8>>,
+    pub exif: Option<Vec<u8>>,
+    pub xmp: Option<Vec<u8>>,
+    pub durations: Vec<u32>,
+}
+
+/// `WebPDemux` (full parse; None if libwebp rejects the file)
+pub fn demux(file: &[u8]) -> Option<DemuxInfo> {
+    unsafe {
+        let data = WebPData { bytes: file.as_ptr(), size: file.len() };
+        let d = WebPDemuxInternal(&data, 0, std::ptr::null_mut(), WebPGetDemuxABIVersion());
+        if d.is_null() {
+            return None;
+        }
+        let mut out = DemuxInfo {
+            flags: WebPDemuxGetI(d, WebPFormatFeature::WEBP_FF_FORMAT_FLAGS),
+            canvas_w: WebPDemuxGetI(d, WebPFormatFeature::WEBP_FF_CANVAS_WIDTH),
+            canvas_h: WebPDemuxGetI(d, WebPFormatFeature::WEBP_FF_CANVAS_HEIGHT),
+            loop_count: WebPDemuxGetI(d, WebPFormatFeature::WEBP_FF_LOOP_COUNT),
+            frame_count: WebPDemuxGetI(d, WebPFormatFeature::WEBP_FF_FRAME_COUNT),
+            ..Default::default()
+        };
+        let get = |cc: &[u8; 5]| -> Option<Vec<u8>> {
+            let mut it: WebPChunkIterator = std::mem::zeroed();
+            if WebPDemuxGetChunk(d, cc.as_ptr() as *const _, 1, &mut it) != 0 {
+                let v = std::slice::from_raw_parts(it.chunk.bytes, it.chunk.size).to_vec();
+                WebPDemuxReleaseChunkIterator(&mut it);
+                Some(v)
+            } else {
+                None
+            }
+        };
+        out.icc = get(b"ICCP\0");
+        out.exif = get(b"EXIF\0");
+        out.xmp = get(b"XMP \0");
+        let mut it: WebPIterator = std::mem::zeroed();
+        if WebPDemuxGetFrame(d, 1, &mut it) != 0 {
+            loop {
+                out.durations.push(it.duration as u32);
+                if WebPDemuxNextFrame(&mut it) == 0 {
+                    break;
+                }
+            }
+            WebPDemuxReleaseIterator(&mut it);
+        }
+        WebPDemuxDelete(d);
+        Some(out)
+    }
+}
